@@ -63,9 +63,9 @@ def run_case(ctx, i, rng):
         # may be the known C01 parentless-chain finding: judged by C01
         sub = {tuple(s.split('/', 1)) for s in end.get('submitted', [])}
         missing = {(str(p), n) for n, p in model['run']} - sub
-        from vlib.e1.c01 import classify_missing
-        kinds = {classify_missing(case, n, int(p)) for p, n in missing}
-        if kinds <= {'parentless-after-parented-point'} and kinds:
+        from vlib.e1.c43 import known_c01
+        if missing and known_c01(case, {f'{p}/{n}' for p, n in missing},
+                                 [res]):
             ctx.count('not_finished_due_to_C01_known_finding')
             return
         ctx.violation(
